@@ -197,6 +197,11 @@ func (c *Check) classifyMapRange(f *Func, rs *ast.RangeStmt) (string, bool) {
 				}
 			case EvAssign:
 				if ev.Var != nil && ev.Var.Pos() < rs.Pos() && ev.Val != nil && (ev.Val.Op == "append" || ev.Val.Op == "upd" || ev.Val.Op == "+") {
+					// a list of events built to be emitted is an emission (events are no consensus state)
+					if tn := typeName(ev.Var.Type()); tn == "sdk.Events" || tn == "[]sdk.Event" {
+						emits++
+						continue
+					}
 					outerAssign = ev.Var.Name()
 				}
 			}
@@ -365,6 +370,12 @@ func (c *Check) indexText(f *Func, pos token.Pos) string {
 // justifyIndex decides whether x[i] / x[a:b] cannot be out of range on this path.
 func (c *Check) justifyIndex(f *Func, pa *Path, i int, ev *Event) (bool, string) {
 	t := ev.Val
+	if t != nil && t.Op == "elem" {
+		return true, "element under the index its own collection is being ranged with (in range by construction)"
+	}
+	if t == nil || len(t.A) < 2 {
+		return c.listedIndex(f, t)
+	}
 	facts := pa.FactsBefore(i)
 	for _, lf := range ev.Local {
 		facts.Add(lf)
@@ -454,7 +465,52 @@ func (c *Check) justifyIndex(f *Func, pa *Path, i int, ev *Event) (bool, string)
 			return true, "constant bounds under a length fact"
 		}
 	}
+	// key[len(prefix):] in a helper whose every caller passes a key of the prefix's own family
+	if hi.IsAt("_") && lo.Op == "len" && len(lo.A) == 1 && base.Op == "" && strings.HasPrefix(base.At, "P") {
+		if pi := stripConv(lo.A[0]); pi.Op == "" && strings.HasPrefix(pi.At, "P") && c.callersPassKeyOfPrefix(f, base.At, pi.At) {
+			return true, "cut of the family prefix from a key: every caller passes a key built for the very prefix it passes (keys of a family start with its prefix)"
+		}
+	}
 	return c.listedIndex(f, t)
+}
+
+// callersPassKeyOfPrefix: at every call of f in the module, the argument bound to keyPar is a key / sub-space of the
+// family whose bare prefix is the argument bound to prefixPar.
+func (c *Check) callersPassKeyOfPrefix(f *Func, keyPar, prefixPar string) bool {
+	var kj, pj int
+	if _, err := fmt.Sscanf(keyPar, "P%d", &kj); err != nil {
+		return false
+	}
+	if _, err := fmt.Sscanf(prefixPar, "P%d", &pj); err != nil {
+		return false
+	}
+	n := 0
+	for _, g := range c.P.Funcs {
+		if g == f || !g.isHandWritten() || g.Body == nil || c.P.pathsBusy[g] {
+			continue
+		}
+		if pk := g.pkgName(); pk != "keeper" && pk != "service" && pk != "types" {
+			continue
+		}
+		for _, pa := range c.P.PathsOf(g) {
+			for _, ev := range pa.Events {
+				if ev.Kind != EvCall || ev.CI.fn != f {
+					continue
+				}
+				if kj >= len(ev.CI.args) || pj >= len(ev.CI.args) {
+					return false
+				}
+				n++
+				fk, _ := c.P.keyFamily(ev.CI.args[kj])
+				fp, _ := c.P.keyFamily(ev.CI.args[pj])
+				pa0 := stripConv(ev.CI.args[pj])
+				if fk == "?" || fk != fp || pa0.Op != "" || !strings.HasPrefix(pa0.At, "@types.") {
+					return false
+				}
+			}
+		}
+	}
+	return n > 0
 }
 
 // listedIndex: the justified table for accesses no local fact decides (one line of reason each).
